@@ -24,8 +24,9 @@ class C05(ScanProperty):
 
     def gen_case(self, rng, i):
         if i % 2 == 1:
-            # engineered: prescribed (length, lookahead length) splits of one word, ties at the end of the input
-            modes, inp = gen.gen_engineered_lookahead_case(rng)
+            # engineered: prescribed (length, lookahead length) splits of one word, ties at the end of the input;
+            # every third of them: lookaheads whose accepted prefix lengths have gaps (the LONGEST lookahead match counts)
+            modes, inp = gen.gen_gap_lookahead_case(rng) if i % 6 == 5 else gen.gen_engineered_lookahead_case(rng)
             return {'modes': modes, 'input': inp, 'ops': gen.all_next(inp)}
         alpha = gen.pick_alpha(rng)
         npat = rng.randint(2, 5)
